@@ -21,13 +21,14 @@ const GoccModule = "github.com/goccmack/gocc"
 const injectPrefix = GoccModule + "/internal/verifsim"
 
 type Gocc struct {
-	Root     string // scratch root
-	Copy     string // scratch copy of the repository
-	Real     string // path of the uninstrumented binary
-	Sim      string // path of the instrumented binary ("" if not built)
-	Race     string // path of the uninstrumented binary built with -race ("" unless gocc has go statements)
-	Census   *rewrite.Census
-	RepoPath string
+	Root         string // scratch root
+	Copy         string // scratch copy of the repository
+	Real         string // path of the uninstrumented binary
+	Sim          string // path of the instrumented binary ("" if not built)
+	ChanFallback string // non-empty: channel rewriting did not build; the reason
+	Race         string // path of the uninstrumented binary built with -race ("" unless gocc has go statements)
+	Census       *rewrite.Census
+	RepoPath     string
 }
 
 func RepoPath() string {
@@ -65,21 +66,46 @@ func BuildGocc(root string, withSim bool) (*Gocc, error) {
 			return nil, err
 		}
 	}
+	// Instrument and build.  Channel rewriting is the most ambitious seam: if the
+	// copy does not build with it (a channel that belongs to the standard library,
+	// an unsupported construct), the copy is made again and instrumented without
+	// it; the goroutines then stay real (census says so) and are only perturbed.
+	orig := g.Copy
+	for attempt, chans := range []bool{true, false} {
+		if attempt > 0 {
+			g.Copy = orig + "-nochan"
+			if err := scratch.CopyTree(g.RepoPath, g.Copy, func(rel string, d fs.DirEntry) bool { return rel == "doc" }); err != nil {
+				return nil, fmt.Errorf("copy repo: %w", err)
+			}
+		}
+		err := g.instrumentAndBuild(bin, chans)
+		if err == nil {
+			break
+		}
+		if attempt == 1 || g.Census == nil || len(g.Census.ChanOps) == 0 {
+			return nil, err
+		}
+		g.ChanFallback = err.Error()
+	}
+	return g, nil
+}
+
+func (g *Gocc) instrumentAndBuild(bin string, coopChans bool) error {
 	redirect := map[string]string{}
 	for std, name := range map[string]string{"os": "simos", "time": "simtime", "math/rand": "simrand", "math/rand/v2": "simrand2", "crypto/rand": "simcrand", "io/ioutil": "simioutil"} {
 		dst := filepath.Join(g.Copy, "internal", "verifsim", name)
 		if err := scratch.CopyInject(name, dst, injectPrefix); err != nil {
-			return nil, err
+			return err
 		}
 		redirect[std] = injectPrefix + "/" + name
 	}
 	if err := scratch.CopyInject("simrt", filepath.Join(g.Copy, "internal", "verifsim", "simrt"), injectPrefix); err != nil {
-		return nil, err
+		return err
 	}
 	coop := map[string]string{}
 	for std, name := range map[string]string{"sync": "simsync", "runtime": "simruntime"} {
 		if err := scratch.CopyInject(name, filepath.Join(g.Copy, "internal", "verifsim", name), injectPrefix); err != nil {
-			return nil, err
+			return err
 		}
 		coop[std] = injectPrefix + "/" + name
 	}
@@ -94,25 +120,26 @@ func BuildGocc(root string, withSim bool) (*Gocc, error) {
 		MapRanges:    true,
 		DeferAtExit:  true,
 		CoopGo:       true,
+		CoopChans:    coopChans,
 		CoopRedirect: coop,
 		Env:          scratch.GoEnv(),
 	})
 	if err != nil {
-		return nil, fmt.Errorf("instrument gocc: %w", err)
+		return fmt.Errorf("instrument gocc: %w", err)
 	}
 	g.Census = c
 	if len(c.GoStmts) > 0 && !c.CoopEnabled {
 		// real goroutines stay real: perturb their schedule at every tick
 		mode := "package simrt\n\nfunc init() { Threaded = true }\n"
 		if err := os.WriteFile(filepath.Join(g.Copy, "internal", "verifsim", "simrt", "zz_mode.go"), []byte(mode), 0o644); err != nil {
-			return nil, err
+			return err
 		}
 	}
 	g.Sim = filepath.Join(bin, "gocc-sim")
 	if err := scratch.GoBuild(g.Copy, g.Sim, "."); err != nil {
-		return nil, fmt.Errorf("instrumented copy does not build (harness problem): %w", err)
+		return fmt.Errorf("instrumented copy does not build (harness problem): %w", err)
 	}
-	return g, nil
+	return nil
 }
 
 // hasGoStatements scans gocc's own non-test sources (not example/, not tests) for a go statement.
